@@ -31,6 +31,11 @@ func (rt *runtime) toValueArray(arguments ...interface{}) []Value {
 }
 
 func stringToArrayIndex(name string) int64 {
+	// Only the canonical decimal form is an index: no sign, no leading zero
+	// ("01", "+1", "-0" are ordinary property names).
+	if name == "" || name[0] < '0' || name[0] > '9' || (name[0] == '0' && len(name) > 1) {
+		return -1
+	}
 	index, err := strconv.ParseInt(name, 10, 64)
 	if err != nil {
 		return -1
